@@ -27,6 +27,28 @@ create index if not exists
 rkey_etime_idx on rkey (etime)
 where etime is not null;
 
+-- A write to a key that has expired but has not been deleted yet
+-- starts from scratch: before the new key row is inserted (or merged
+-- into the existing one by "on conflict"), the expired row loses
+-- its elements, its expiration time and its type.
+create trigger if not exists
+rkey_on_insert
+before insert on rkey
+for each row
+when (select etime from rkey where key = new.key) <= new.mtime
+begin
+    delete from rstring where kid = (select id from rkey where key = new.key);
+    delete from rlist where kid = (select id from rkey where key = new.key);
+    delete from rset where kid = (select id from rkey where key = new.key);
+    delete from rhash where kid = (select id from rkey where key = new.key);
+    delete from rzset where kid = (select id from rkey where key = new.key);
+    update rkey set
+        type = new.type,
+        etime = null,
+        len = case when new.type = 1 then null else 0 end
+    where key = new.key;
+end;
+
 create view if not exists
 vkey as
 select
